@@ -221,7 +221,7 @@ class LineAhead(A.Auto):
         self.n_lf = 0
 
     def initial(self):
-        return (0, False, None)
+        return (0, (), None)
 
     def key(self, state):
         return (state[0], state[1], state[2] is not None)
@@ -239,23 +239,30 @@ class LineAhead(A.Auto):
         count, counted, site = state
         if ev[0] == "prim":
             if ev[1] in ("advance",):
-                return (0, False, site)
+                return (0, (), site)
             if ev[1] == "look":
-                return (count, False, site)
+                # `counted` holds the tags of the answers whose line end was already counted; an answer without a tag
+                # of its own (offset neither a constant nor a plain variable) is a new one with every request
+                tag = ev[3] if len(ev) > 3 else "look"
+                if "@" not in tag:
+                    return (count, tuple(x for x in counted if x != "look"), site)
+                return state
             return state
         if ev[0] == "narrow" and ev[1] == "look":
             if not self._is_lf(ev[2]):
                 return state
             if len(ev) == 3:
-                return (count, True, site)  # the same, already narrowed answer replayed by a second look at the same offset
-            if counted:
+                return state  # the same, already narrowed answer replayed by a second look at the same offset
+            tag = ev[3]
+            if tag in counted:
                 return state
+            counted = tuple(sorted(set(counted) | {tag}))[-3:]
             self.n_lf += 1
             if count >= 1 and site is None:
                 fn = where[1]
                 chain = [short(self.eng.facts.inst[k]["def"]) for k in self.eng.stack] if self.eng else []
                 site = (short(norm(fn.id)), fn.loc(where[2]), " -> ".join(chain))
-            return (min(count + 1, 2), True, site)
+            return (min(count + 1, 2), counted, site)
         return state
 
 
